@@ -51,6 +51,33 @@ Theorem c15_tamper : forall (key cert : Type) (cert_of : key -> cert) sign verif
 Proof. exact @tamper_thm. Qed.
 Print Assumptions c15_tamper.
 
+(* the Signature parameter is not malleable (no guard on the adversary): parameter sets that agree on message
+   value, RelayState and SigAlg and verify under the same certificate carry the same Signature parameter.  With
+   c15_verify: next to the signed URL's own Signature parameter no other value verifies - no other base64 text and
+   no other octet string for the same integer (leading zero octets dropped or added, s + n, ...) *)
+Theorem c15_signature_unique : forall (key cert : Type) (cert_of : key -> cert) sign verify,
+  ideal cert_of sign verify ->
+  forall own own' q q' c,
+  same_on ["SAMLRequest"; "SAMLResponse"; "RelayState"; "SigAlg"] q q' ->
+  verify_redirect_signature cert_of verify own q (Some c) = VTrue ->
+  verify_redirect_signature cert_of verify own' q' (Some c) = VTrue ->
+  get q "Signature" = get q' "Signature".
+Proof. exact @signature_unique. Qed.
+Print Assumptions c15_signature_unique.
+
+(* ... and this rests on key_verify accepting exactly ONE octet string per (certificate, digest, octets): for ANY
+   verify function (nothing assumed) that accepts two different octet strings s, s' somewhere, two parameter sets
+   that differ in nothing but the Signature parameter both verify *)
+Theorem c15_one_signature_value_needed : forall (key cert : Type) (cert_of : key -> cert) verify own c t v r a d s s',
+  dirtyp t -> digest_of a = Some d -> s <> s' ->
+  verify c d (octets_of t v r a) s = true -> verify c d (octets_of t v r a) s' = true ->
+  exists q q', same_on ["SAMLRequest"; "SAMLResponse"; "RelayState"; "SigAlg"] q q'
+    /\ get q "Signature" <> get q' "Signature"
+    /\ verify_redirect_signature cert_of verify own q (Some c) = VTrue
+    /\ verify_redirect_signature cert_of verify own q' (Some c) = VTrue.
+Proof. exact @malleable_verify_breaks. Qed.
+Print Assumptions c15_one_signature_value_needed.
+
 (* acceptance under c means: the owner of c signed exactly the octets determined by the presented message
    value, RelayState and SigAlg, with the digest of the presented SigAlg *)
 Theorem c15_sound : forall (key cert : Type) (cert_of : key -> cert) sign verify,
